@@ -2,7 +2,7 @@
 //! (ISO/IEC 14496-12/-14/-15, 14496-1 descriptors, VP-codec binding, 3GPP TS 26.245, QuickTime metadata).
 
 use super::tree::*;
-use std::rc::Rc;
+use std::sync::Arc;
 
 pub const UNITY: [i32; 9] = [0x10000, 0, 0, 0, 0x10000, 0, 0, 0, 0x40000000];
 
@@ -279,7 +279,7 @@ pub fn chunk_offsets(co64: bool, anchor: &str, rel: Vec<u64>) -> Node {
         }
         w.done()
     };
-    Node::dynamic(if co64 { b"co64" } else { b"stco" }, Rc::new(f))
+    Node::dynamic(if co64 { b"co64" } else { b"stco" }, Arc::new(f))
 }
 
 // ---------------------------------------------------------------------------------------------
